@@ -549,13 +549,18 @@ func (g *Genome) mateSinglePoint(og *Genome, genomeId int) (*Genome, error) {
 				}
 			} else {
 				// p2innov < p1innov
+				if geneCounter < crossPoint {
+					// Special case: we need to skip to the next iteration
+					// because this Gene is before the crossPoint on the wrong Genome
+					skip = true
+				} else {
+					// the crossPoint was passed - every other Gene is taken from the larger Genome
+					chosenGene = p2gene
+				}
 				i2++
-				// Special case: we need to skip to the next iteration
-				// because this Gene is before the crossPoint on the wrong Genome
-				skip = true
 			}
 		}
-		if chosenGene == nil {
+		if chosenGene == nil && !skip {
 			// no gene was chosen - no need to process further - exit cycle
 			break
 		}
